@@ -1072,6 +1072,7 @@ fn child_body(run: &E1Run, isos: &[Vec<Arc<Iso>>], raw_fd: i32) -> RunReport {
         step_cap: if run.alloc_yield { STEP_CAP * 3 } else { STEP_CAP },
         alloc_yield: run.alloc_yield,
         watchdog: Duration::from_secs(10),
+        clock_seed: if run.ptrace.is_none() { run.seed | 1 } else { 0 },
     };
     let pool_dyn: Arc<dyn Pool + Send + Sync> = pool.clone();
     let out = if run.ptrace.is_some() { crate::e5::execute_free(&spec, pool_dyn, run.ptrace.as_ref().map(|p| p.warmup.as_slice()).unwrap_or(&[])) } else { sched::execute(&spec, chooser, pool_dyn, &|_| Vec::new()) };
@@ -1141,6 +1142,7 @@ fn child_body(run: &E1Run, isos: &[Vec<Arc<Iso>>], raw_fd: i32) -> RunReport {
     rep.probes.insert("switch_between_emits_of_one_call".into(), out.probes.switches_between_emits_of_one_call);
     rep.probes.insert("switch_into_thread_that_is_mid_call".into(), out.probes.calls_overlapping);
     rep.probes.insert("lock_blocked_thread_passed_over".into(), out.probes.lock_blocked_threads_passed_over);
+    rep.probes.insert("clock_moved_forward_between_two_calls".into(), out.probes.clock_advances);
     let mut cells: Vec<String> = out.cells.iter().map(|(a, s, b)| format!("{}|{}|{}", a, s, b)).collect();
     cells.sort();
     cells.dedup();
